@@ -94,6 +94,8 @@ pub fn c18_shapes(thorough: bool) -> Vec<Shape> {
         Shape::new("two_phase_2_plus_3", &[Commit, AllocMul, AllocMul, Con], &[&[Chal, AllocMul, AllocMul, Alloc, Con]]),
         Shape::new("two_closures_1_plus_1_plus_2", &[Commit, AllocMul, Con], &[&[Chal, Mul, Con], &[Chal, AllocMul, AllocMul, Con]]),
         Shape::new("four_gates_exact_power_of_two", &[Commit, AllocMul, AllocMul, AllocMul, AllocMul, Con], &[]),
+        Shape::new("empty_combination_constrained_first", &[Commit, AllocMul, ConEmpty, Con, Con], &[&[Chal, ConEmpty, Con]]),
+        Shape::new("app_data_between_and_after_commitments", &[Commit, Msg("between".into()), Commit, Msg("after".into()), AllocMul, Con], &[]),
     ];
     if thorough {
         v.push(Shape::new("four_gates", &[Commit, AllocMul, AllocMul, AllocMul, AllocMul, Con], &[]));
